@@ -89,31 +89,54 @@ def case_key(c):
     return "%s(%s)" % (c["fn"], ",".join(cls))
 
 
+def c_jobs(cases):
+    """-> [(from, to)] index ranges, one process each: every case specified to trap alone, the cases between two
+    of them together.  wat2c emits no bounds checks (known finding), so an access the specification rejects may
+    write into the host program's own data (the `app_memory` pointer lies right behind the 64 KiB array) and go
+    on: whatever the same process prints afterwards depends on the address-space layout of that run, not on
+    wat2c.  Only cases the specification defines share a process; what a trapping case leaves behind dies with it."""
+    jobs = []
+    start = None
+    for i, c in enumerate(cases):
+        if c["mod"] == "module" and c["trap"]:
+            if start is not None:
+                jobs.append((start, i))
+                start = None
+            jobs.append((i, i + 1))
+        elif start is None:
+            start = i
+    if start is not None:
+        jobs.append((start, len(cases)))
+    return jobs
+
+
 def run_c(out, cases, opt):
-    """compile the wat2c output with clang <opt>, run all cases; -> {index: value-string | 'CRASH:<sig>'}"""
+    """compile the wat2c output with clang <opt>, run all cases; -> {index: value-string | 'CRASH:<sig>' | 'HANG'}"""
     exe = os.path.join(out, "host" + opt.replace("-", "_"))
     p = subprocess.run(["clang", opt, "-w", "-o", exe, "host.c", "app.c", "-lm"], cwd=out, capture_output=True, text=True, timeout=600)
     if p.returncode != 0:
         return None, p.stderr[-2000:]
-    res = {}
-    start = 0
-    n = len(cases)
-    guard = 0
-    while start < n and guard < 2000:
-        guard += 1
-        rc, so, se, to = common.run_child([exe, str(start), str(n)], timeout=300)
-        last = start - 1
-        for l in so.splitlines():
-            t = l.split()
-            if len(t) == 2:
-                res[int(t[0])] = t[1]
-                last = int(t[0])
-        if to:
-            res[last + 1] = "HANG"
+
+    def job(rng):
+        start, end = rng
+        res = {}
+        guard = 0
+        while start < end and guard < 2000:
+            guard += 1
+            rc, so, se, to = common.run_child([exe, str(start), str(end)], timeout=300)
+            last = start - 1
+            for l in so.splitlines():
+                t = l.split()
+                if len(t) == 2 and t[0].isdigit() and start <= int(t[0]) < end:
+                    res[int(t[0])] = t[1]
+                    last = int(t[0])
+            if rc == 0 and not to:
+                break
+            if last + 1 < end:  # (a process that dies after its last case has printed its result: no case to blame)
+                res[last + 1] = "HANG" if to else "CRASH:%s" % rc
             start = last + 2
-            continue
-        if rc == 0:
-            break
-        res[last + 1] = "CRASH:%s" % rc
-        start = last + 2
+        return res
+    res = {}
+    for r in common.parallel(job, c_jobs(cases)):
+        res.update(r)
     return res, ""
